@@ -366,11 +366,11 @@ func asyncHalt(c *fw.Ctx, r *rand.Rand, rc *recipe, h gen.Hist, tag string) {
 
 func init() {
 	fw.Register(&fw.Monitor{
-		ID:        "C12",
-		Level:     "fault_enumeration",
-		RaceKinds: map[string]bool{"iterative": true},
-		Technique: "deterministic fault injection: a counting context cancels the search at its n-th cancellation poll, for every n (or a dense sample) of each search; recording table + follow-up search + board snapshot as oracles; plus asynchronous Halt of the real iterative-deepening harness under the race detector",
-		Rule: "fault = cancellation becoming visible at poll n of a search that makes P polls in total (dry run): all n for P <= 120 (quick) / 2500 (thorough), else first/last and seeded n; per fault: ErrHalted reported, board snapshot equal, every table write made after the cancelling poll re-derived by a table-less search, follow-up search on the same table compared (score, PV first move) with the table-less result; configurations as C03 (tables only for position-determined ones, cold and pre-warmed); Minimax and direct quiescence: report + board; asynchronous: Iterative.Launch halted via Handle.Halt while the search goroutine is parked inside its k-th evaluation; distinct = distinct (configuration, history) searches",
+		ID:          "C12",
+		Level:       "fault_enumeration",
+		RaceKinds:   map[string]bool{"iterative": true},
+		Technique:   "deterministic fault injection: a counting context cancels the search at its n-th cancellation poll, for every n (or a dense sample) of each search; recording table + follow-up search + board snapshot as oracles; plus asynchronous Halt of the real iterative-deepening harness under the race detector",
+		Rule:        "fault = cancellation becoming visible at poll n of a search that makes P polls in total (dry run): all n for P <= 120 (quick) / 2500 (thorough), else first/last and seeded n; per fault: ErrHalted reported, board snapshot equal, every table write made after the cancelling poll re-derived by a table-less search, follow-up search on the same table compared (score, PV first move) with the table-less result; configurations as C03 (tables only for position-determined ones, cold and pre-warmed); Minimax and direct quiescence: report + board; asynchronous: Iterative.Launch halted via Handle.Halt while the search goroutine is parked inside its k-th evaluation; distinct = distinct (configuration, history) searches",
 		Assumptions: []string{"cancellation is observed only through ctx.Done() polls (true for all searches in the tree: contextx.IsCancelled)", "follow-up equality relies on table transparency (C11) within C11's scope"},
 		Setup:       validateOracle,
 		Timeout:     minutes(15, 120),
